@@ -1,29 +1,52 @@
-import TwistedModel.Http.Channel
+import TwistedProps.C19.Whole
 /-!
 C19 — HTTP/1.1 server framing follows RFC 9112 (no request smuggling).
 
-Proved here, on the channel model `TwistedModel/Http/Channel.lean` (which follows the repaired
-`_parseRequestLine` / `_maybeChooseTransferDecoder`), for ALL inputs:
+Objects.  The channel model `TwistedModel/Http/Channel.lean` (which follows the repaired `_parseRequestLine` /
+`_maybeChooseTransferDecoder`, tied to `twisted/web/http.py` by the differential runs of the check) and the
+independent reference parser `TwistedModel/Http/Rfc9112Request.lean` (RFC 9112 §2.2, §3, §5, §6.3, §7.1; tied on
+every run to the Python reference of `harness/corr/C19.py` and to `h11`).  `R.parseStream stream` is the reference's
+reading of a byte stream: its messages (request line, fields, body, offsets `start`/`stop`) and why it stopped
+(`done`, `more`, `may`, `bad <class>`).  `feed app init stream` is the connection after the stream has arrived in one
+delivery (what the C19 check runs; independence of the segmentation is C18), `delivered …outs` the requests handed to
+the application.  `AtOnce app`: the application answers each request inside `requestReceived` (the assumption of the
+check; otherwise pipelined requests stay buffered, unparsed).
 
-* `request_line_sound` — a request line that is accepted is an RFC 9112 request line: token method,
-  non-empty target of visible ASCII (0x21–0x7E) only, version HTTP/1.0 or HTTP/1.1;
-* `second_framing_header_rejected` — once a body decoder is chosen, every further `Content-Length`
-  and every further `Transfer-Encoding: chunked` is refused (Content-Length + Transfer-Encoding,
-  repeated Content-Length, repeated chunked);
-* `nonnumeric_content_length_rejected`, `overlong_content_length_rejected`,
-  `unsupported_coding_rejected` — each refused whatever the channel state;
-* `refusal_is_400_and_close` — a refusal writes exactly `HTTP/1.1 400 Bad Request\r\n\r\n`, closes
-  the connection and hands nothing to the application; `bad_header_stops_request` lifts this to
-  the end-of-headers line: no request is delivered;
-* `te_identity_accepted_counterexample` — the one place where the code falsifies the statement
-  (`Transfer-Encoding: identity` next to a `Content-Length` is accepted): known finding `te-identity`.
+WHOLE-STREAM THEOREMS (for EVERY application that answers at once and EVERY byte stream):
 
-PARTIAL.  The statement of the property also says, for whole streams, that the body handed over
-is the RFC 9112 body and that request k+1 starts where message k ends ("no request from body
-bytes").  That needs an RFC-shaped reference parser in Lean and a simulation argument over
-`drain`; it is NOT proved here.  It is checked on the real server by the oracle of
-`harness/corr/C19.py` against an independent reference parser (message by message).  The theorems
-below are therefore named `…_partial` where they stand for the full statement.
+* `body_is_rfc_body` — the k-th request handed over has exactly the method, target, version and BODY of the k-th
+  message of the reference (Content-Length octets, or the decoded chunked content), for every k for which the
+  reference has a message — i.e. on the whole prefix of the stream the reference accepts, whatever comes after it;
+* `no_request_from_body_bytes` — request k+1 is the message `parseOne` reads at the offset where the reference says
+  message k stops (after at most one empty line): no octet of a body is ever read as the start of a request;
+* `no_extra_request_partial` — when the stream ends after a message (`done`) or at an invalid one (`bad`), no request
+  beyond the reference's messages is handed over.  PARTIAL: for a stream that ends INSIDE a message (`more`) it is not
+  proved that nothing is handed over for the incomplete message (the oracle checks it on the real server: key
+  `early-request`);
+* `bad_framing_gets_400_and_stop` — ONE theorem over all rejection classes of the reference (request-line, method,
+  target-byte, version, field-line, field-name, field-value-nul, cl+te, te-repeated, te-unsupported, cl-repeated,
+  cl-nonnumeric, cl-digits, chunk-size, chunk-ext, chunk-crlf) EXCEPT `te-identity`: the connection is closing, no
+  request beyond the valid messages was handed over, and — unless the server had already closed after a request that
+  was not persistent (Connection: close / HTTP/1.0) — the bytes `HTTP/1.1 400 Bad Request\r\n\r\n` and
+  `loseConnection` are the LAST things the connection did, after exactly one request per valid message;
+  `stopped_after_close`: nothing delivered later is processed;
+* the exception stays explicit: `te_identity_accepted_counterexample` (header level) and
+  `te_identity_stream_counterexample` (a stream the reference refuses as `te-identity` whose request the channel
+  hands over) — known finding `te-identity`.  `body_is_rfc_body` / `no_request_from_body_bytes` need no exception:
+  a message the reference ACCEPTS has no `Transfer-Encoding: identity`.
+
+Nothing is claimed where the reference says `may` (obs-fold, bare CR/LF in a value, versions other than 1.0/1.1,
+size limits, codings before a final `chunked`, …): RFC 9110/9112 let a recipient reject or tolerate.
+
+HEADER-LEVEL THEOREMS (kept from the first round, for ALL channel states):
+`request_line_sound`, `second_framing_header_rejected`, `nonnumeric_content_length_rejected`,
+`overlong_content_length_rejected`, `unsupported_coding_rejected`, `header_refusal_is_400_and_close`.
+
+Proof structure (`TwistedProps/C19/*.lean`): `Bridge` (the reference's octet functions are the channel's; header-name
+canonicalisation), `Framing` (§6.3 decided on the whole field section = the incremental choice of
+`_maybeChooseTransferDecoder`), `Chunked` (reference chunked-body ⇒ `_ChunkedTransferDecoder` finishes with exactly
+that content and rest, via the C22 theorems; malformed ⇒ `_MalformedChunkedDataError`), `Head`/`Sim` (field section in
+lockstep, `head_sim`), `Msg`/`Stream` (`msg_sim`, `stream_sim`), `Whole` (observables, offsets).
 -/
 namespace TwistedProps.C19
 open Twisted.Http.Chunked hiding St feed init
@@ -132,8 +155,8 @@ theorem te_identity_accepted_counterexample :
   simp [Refused, maybeChoose, lower, vIdentity, vChunked, hTransferEncoding, hContentLength, lowerByte] at this
 
 /-- whenever a header line is refused the 400 has been written, the connection is closing and no
-    request is among the outputs (partial: header level, see the file header) -/
-theorem refusal_is_400_and_close_partial (c : Chan) (line : Bytes)
+    request is among the outputs (header level; the whole-stream statement is `bad_framing_gets_400_and_stop`) -/
+theorem header_refusal_is_400_and_close (c : Chan) (line : Bytes)
     (h : (headerReceived c line).2 = false) :
     (headerReceived c line).1.1.closed = true ∧ delivered (headerReceived c line).1.2 = [] ∧
     written (headerReceived c line).1.2 = badRequestBytes := by
@@ -191,5 +214,149 @@ example : Refused (maybeChoose { decoder := .ident (Ident.init (some 5)) } hTran
     Refused (maybeChoose {} hContentLength [43, 53]) ∧ Refused (maybeChoose {} hTransferEncoding [103, 122, 105, 112]) :=
   ⟨second_framing_header_rejected _ _ _ (by simp) (Or.inr ⟨rfl, by decide⟩),
    nonnumeric_content_length_rejected _ _ (by decide), unsupported_coding_rejected _ _ (by decide) (by decide)⟩
+
+
+/-! ## whole streams -/
+
+/-- **each request handed over has exactly the body (and request line) RFC 9112 assigns to it** -/
+theorem body_is_rfc_body (app : App) (hfin : AtOnce app) (stream : Bytes) (k : Nat) (r : Req) (m : R.Msg)
+    (hr : (delivered (feed app init stream).outs)[k]? = some r) (hm : (R.parseStream stream).1[k]? = some m) :
+    r.method = m.method ∧ r.uri = m.target ∧ r.version = m.version ∧ r.body = m.body := by
+  rw [(feed_init app stream).1] at hr
+  exact follows_delivered _ _ _ (follows_stream app hfin stream) k r m hr hm
+
+theorem consecutive_get (orig : Bytes) : ∀ (msgs : List R.Msg) (prev : Nat), Consecutive orig prev msgs →
+    ∀ (k : Nat) (m m1 : R.Msg), msgs[k]? = some m → msgs[k + 1]? = some m1 →
+      (m1.start = m.stop ∨ (m1.start = m.stop + 2 ∧ R.startsCRLF (orig.drop m.stop) = true)) ∧
+      ∃ m' rest, R.parseOne (orig.drop m1.start) = .ok (m', rest) ∧ m'.method = m1.method ∧ m'.target = m1.target ∧
+        m'.version = m1.version ∧ m'.body = m1.body ∧ m1.stop = m1.start + m'.stop := by
+  intro msgs
+  induction msgs with
+  | nil => intro prev _ k m m1 h; simp at h
+  | cons a t ih =>
+    intro prev hc k m m1 h0 h1
+    obtain ⟨_, _, hct⟩ := hc
+    cases k with
+    | zero =>
+      simp only [List.getElem?_cons_zero, Option.some.injEq] at h0
+      subst h0
+      cases t with
+      | nil => simp at h1
+      | cons b t' =>
+        simp only [Nat.zero_add, List.getElem?_cons_succ, List.getElem?_cons_zero, Option.some.injEq] at h1
+        subst h1
+        exact ⟨hct.1, hct.2.1⟩
+    | succ k =>
+      simp only [List.getElem?_cons_succ] at h0 h1
+      exact ih a.stop hct k m m1 h0 h1
+
+/-- **bytes of a body are never parsed as a new request**: request k+1 handed over is the message the reference
+    reads at the offset where message k stops (`m1.start = m.stop`, or two octets later after one empty line) -/
+theorem no_request_from_body_bytes (app : App) (hfin : AtOnce app) (stream : Bytes) (k : Nat) (r : Req) (m m1 : R.Msg)
+    (hr : (delivered (feed app init stream).outs)[k + 1]? = some r)
+    (hm : (R.parseStream stream).1[k]? = some m) (hm1 : (R.parseStream stream).1[k + 1]? = some m1) :
+    (m1.start = m.stop ∨ (m1.start = m.stop + 2 ∧ R.startsCRLF (stream.drop m.stop) = true)) ∧
+    ∃ m' rest, R.parseOne (stream.drop m1.start) = .ok (m', rest) ∧ m1.stop = m1.start + m'.stop ∧
+      r.method = m'.method ∧ r.uri = m'.target ∧ r.version = m'.version ∧ r.body = m'.body := by
+  obtain ⟨hadj, m', rest, hp, e1, e2, e3, e4, e5⟩ :=
+    consecutive_get stream _ 0 (parseStream_consecutive stream) k m m1 hm hm1
+  obtain ⟨b1, b2, b3, b4⟩ := body_is_rfc_body app hfin stream (k + 1) r m1 hr hm1
+  exact ⟨hadj, m', rest, hp, e5, by rw [b1, e1], by rw [b2, e2], by rw [b3, e3], by rw [b4, e4]⟩
+
+/-- no request beyond the reference's messages when the stream ends after a message or at an invalid one.
+    PARTIAL — full statement: also when `(R.parseStream stream).2 = .more` (the stream ends inside a message) the
+    number of requests handed over is at most the number of complete messages.  Missing: the converse direction of
+    the simulation for incomplete heads / bodies (the channel hands a request over only when the reference's message
+    is complete). -/
+theorem no_extra_request_partial (app : App) (hfin : AtOnce app) (stream : Bytes)
+    (hstop : (R.parseStream stream).2 = .done ∨ ∃ k, (R.parseStream stream).2 = .bad k ∧ k ≠ .teIdentity) :
+    (delivered (feed app init stream).outs).length ≤ (R.parseStream stream).1.length := by
+  rw [(feed_init app stream).1]
+  exact follows_count _ _ _ (follows_stream app hfin stream) hstop
+
+/-- **invalid or conflicting framing or syntax is answered with 400 and nothing after it is processed** — one
+    theorem over every rejection class `k` of the reference except `te-identity` (the known finding) -/
+theorem bad_framing_gets_400_and_stop (app : App) (hfin : AtOnce app) (stream : Bytes) (k : R.BadKey)
+    (hstop : (R.parseStream stream).2 = .bad k) (hk : k ≠ .teIdentity) :
+    (feed app init stream).chan.closed = true ∧
+    (delivered (feed app init stream).outs).length ≤ (R.parseStream stream).1.length ∧
+    ((∀ r ∈ delivered (feed app init stream).outs, checkPersistence r.headers r.version = true) →
+      ∃ o, (feed app init stream).outs = o ++ [.write badRequestBytes, .lose] ∧
+        delivered o = delivered (feed app init stream).outs ∧
+        (delivered (feed app init stream).outs).length = (R.parseStream stream).1.length) := by
+  have hF := follows_stream app hfin stream
+  rw [hstop] at hF
+  obtain ⟨h1, h2⟩ := follows_bad _ k _ hF hk
+  refine ⟨by rw [(feed_init app stream).2]; exact h1,
+    no_extra_request_partial app hfin stream (Or.inr ⟨k, hstop, hk⟩), ?_⟩
+  rw [(feed_init app stream).1]
+  exact h2
+
+/-- once the connection is closing, nothing that is delivered later is processed -/
+theorem stopped_after_close (app : App) (s : St) (h : s.chan.closed = true) (more : Bytes) :
+    step app s (.data more) = s := by
+  simp [step, St.stopped, h]
+
+/-! ### the exception, on a whole stream -/
+
+/-- the application that answers every request at once with nothing -/
+def nullApp : App := ⟨fun _ _ => ([], true), fun _ _ => 0, fun _ _ => false, fun _ _ => []⟩
+
+theorem nullApp_atOnce : AtOnce nullApp := fun _ _ => rfl
+
+/-- `POST / HTTP/1.1␍␊Transfer-Encoding: identity␍␊␍␊` -/
+def teIdentityStream : Bytes :=
+  [80, 79, 83, 84, 32, 47, 32, 72, 84, 84, 80, 47, 49, 46, 49, 13, 10,
+   84, 114, 97, 110, 115, 102, 101, 114, 45, 69, 110, 99, 111, 100, 105, 110, 103, 58, 32,
+   105, 100, 101, 110, 116, 105, 116, 121, 13, 10, 13, 10]
+
+/-- **the statement fails here** (finding `te-identity`): the reference refuses the message, the channel hands it over -/
+theorem te_identity_stream_counterexample :
+    R.parseStream teIdentityStream = ([], .bad .teIdentity) ∧
+    (delivered (feed nullApp init teIdentityStream).outs).length = 1 ∧
+    (feed nullApp init teIdentityStream).chan.closed = false := by
+  decide +kernel
+
+/-! ### non-vacuity of the whole-stream theorems -/
+
+/-- `POST /a HTTP/1.1␍␊Content-Length: 19␍␊␍␊GET /x HTTP/1.1␍␊␍␊` then
+    `POST /b HTTP/1.1␍␊Transfer-Encoding: chunked␍␊␍␊3␍␊abc␍␊0␍␊␍␊` then `GET /c HTTP/1.1␍␊Content-Length: x␍␊␍␊` -/
+def exStream : Bytes :=
+  [80, 79, 83, 84, 32, 47, 97, 32, 72, 84, 84, 80, 47, 49, 46, 49, 13, 10,
+   67, 111, 110, 116, 101, 110, 116, 45, 76, 101, 110, 103, 116, 104, 58, 32, 49, 57, 13, 10, 13, 10,
+   71, 69, 84, 32, 47, 120, 32, 72, 84, 84, 80, 47, 49, 46, 49, 13, 10, 13, 10,
+   80, 79, 83, 84, 32, 47, 98, 32, 72, 84, 84, 80, 47, 49, 46, 49, 13, 10,
+   84, 114, 97, 110, 115, 102, 101, 114, 45, 69, 110, 99, 111, 100, 105, 110, 103, 58, 32, 99, 104, 117, 110, 107, 101, 100, 13, 10, 13, 10,
+   51, 13, 10, 97, 98, 99, 13, 10, 48, 13, 10, 13, 10,
+   71, 69, 84, 32, 47, 99, 32, 72, 84, 84, 80, 47, 49, 46, 49, 13, 10,
+   67, 111, 110, 116, 101, 110, 116, 45, 76, 101, 110, 103, 116, 104, 58, 32, 120, 13, 10, 13, 10]
+
+/-- the reference: two messages (the smuggled `GET /x` is the 19-octet body of the first, the second has the
+    chunked content `abc`), then an invalid one (`cl-nonnumeric`) -/
+example : ((R.parseStream exStream).1.map fun m => (m.target, m.body.length, m.start, m.stop)) =
+      [([47, 97], 19, 0, 59), ([47, 98], 3, 59, 120)] ∧
+    (R.parseStream exStream).2 = .bad .clNonnumeric := by decide +kernel
+
+/-- so by the theorems the channel hands over exactly these two requests with these bodies, then writes 400 and closes -/
+example : (delivered (feed nullApp init exStream).outs).length ≤ 2 ∧ (feed nullApp init exStream).chan.closed = true := by
+  have h : (R.parseStream exStream).2 = .bad .clNonnumeric := by decide +kernel
+  have hl : (R.parseStream exStream).1.length = 2 := by decide +kernel
+  obtain ⟨h1, h2, _⟩ := bad_framing_gets_400_and_stop nullApp nullApp_atOnce exStream .clNonnumeric h (by decide)
+  exact ⟨by rw [hl] at h2; exact h2, h1⟩
+
+/-- `POST /a HTTP/1.1␍␊Content-Length: 19␍␊␍␊GET /x HTTP/1.1␍␊␍␊` then `GET /real HTTP/1.1␍␊␍␊` -/
+def exStream2 : Bytes :=
+  [80, 79, 83, 84, 32, 47, 97, 32, 72, 84, 84, 80, 47, 49, 46, 49, 13, 10,
+   67, 111, 110, 116, 101, 110, 116, 45, 76, 101, 110, 103, 116, 104, 58, 32, 49, 57, 13, 10, 13, 10,
+   71, 69, 84, 32, 47, 120, 32, 72, 84, 84, 80, 47, 49, 46, 49, 13, 10, 13, 10,
+   71, 69, 84, 32, 47, 114, 101, 97, 108, 32, 72, 84, 84, 80, 47, 49, 46, 49, 13, 10, 13, 10]
+
+/-- the hypotheses of `body_is_rfc_body` / `no_request_from_body_bytes` are met for k = 0, 1 on this stream: the
+    channel hands over two requests, the reference reads two messages; the `GET /x` inside the first body is neither -/
+example : ((delivered (feed nullApp init exStream2).outs).map fun r => (r.uri, r.body.length)) =
+      [([47, 97], 19), ([47, 114, 101, 97, 108], 0)] ∧
+    ((R.parseStream exStream2).1.map fun m => (m.target, m.body.length, m.start, m.stop)) =
+      [([47, 97], 19, 0, 59), ([47, 114, 101, 97, 108], 0, 59, 81)] ∧
+    (R.parseStream exStream2).2 = .done := by decide +kernel
 
 end TwistedProps.C19
